@@ -2,6 +2,7 @@ import JetVerif.Props.C12
 import JetVerif.Props.C12S
 import JetVerif.Props.C12L
 import JetVerif.Props.C12T
+import JetVerif.Props.C12W
 open JetVerif.Props.C12
 #print axioms failure_keeps_rendered_prefix
 #print axioms success_extends_output
@@ -30,3 +31,9 @@ open JetVerif.Props.C12
 #print axioms JetVerif.Props.C12T.empty_pipeline_panics
 #print axioms JetVerif.Props.C12T.let_of_field_panics
 #print axioms JetVerif.Props.C12T.yield_without_params_panics
+#print axioms JetVerif.Props.C12W.parsed_tree_is_shaped
+#print axioms JetVerif.Props.C12W.parsed_template_is_shaped
+#print axioms JetVerif.Props.C12W.parsed_template_is_well_formed
+#print axioms JetVerif.Props.C12W.parsed_blocks_are_well_formed
+#print axioms JetVerif.Props.C12W.parsed_store_is_well_formed
+#print axioms JetVerif.Props.C12W.parsed_templates_only_repanic_callee_panics
